@@ -21,7 +21,7 @@ func init() { rt.Register(&c08{}) }
 
 func (c08) ID() string { return "C08" }
 
-var c08Kinds = []string{"plain", "plain-mget", "plain-full", "plain-named", "ordered", "aggr", "aggr-ordered", "aggr-inter", "aggr-inter-ordered", "aggr-all", "delete", "delete-mget", "delete-full"}
+var c08Kinds = []string{"plain", "plain-mget", "plain-full", "plain-named", "ordered", "aggr", "aggr-ordered", "aggr-inter", "aggr-inter-ordered", "aggr-all", "delete", "delete-mget", "delete-full", "plain-filtered", "delete-filtered"}
 
 // counts near the top of the integer range ("everything after the offset")
 var c08Huge = []int{math.MaxInt64, math.MaxInt64 - 1, 1 << 62}
@@ -78,6 +78,7 @@ func (c08) Gates(tier string, m map[string]int64) []rt.Gate {
 		rt.GateMin("slice beyond the end", m, "beyond_end", 100),
 		rt.GateMin("delete grid points", m, "kind:delete", 100),
 		rt.GateMin("delete over point reads grid points", m, "kind:delete-mget", 100),
+		rt.GateMin("grid points over a prefix scan whose filter rejects pairs inside the window", m, "kind:plain-filtered", 100),
 		rt.GateMin("aggregate (limit pushed down) grid points", m, "kind:aggr", 100),
 		rt.GateMin("aggregate grid points with groups interleaved in key order", m, "kind:aggr-inter", 100),
 		rt.GateMin("grid points with a count near the top of the integer range", m, "huge_counts", 100),
@@ -100,9 +101,17 @@ func c08Store(r int, kind string) []refstore.Pair {
 			v = fmt.Sprintf("h%03d", (i%((r+2)/3))*7%10)
 		}
 		ps = append(ps, refstore.Pair{K: fmt.Sprintf("k%03d", i), V: v})
+		if strings.HasSuffix(kind, "-filtered") && i%3 != 2 {
+			// pairs inside the scanned region that the rest of the filter rejects: the window
+			// counts the pairs that pass, not the pairs read
+			ps = append(ps, refstore.Pair{K: fmt.Sprintf("k%03d_", i), V: "drop"})
+		}
+	}
+	if strings.HasSuffix(kind, "-filtered") {
+		ps = append(ps, refstore.Pair{K: "k", V: "drop"}, refstore.Pair{K: "kzz", V: "drop"})
 	}
 	ps = append(ps, refstore.Pair{K: "m1", V: "zz"})
-	return ps
+	return refstore.New(ps).Pairs() // key order
 }
 
 // c08Where is the filter of a kind: prefix scan, point reads (with absent keys
@@ -125,6 +134,8 @@ func c08Where(kind string, r int) string {
 		return b.String()
 	case strings.HasSuffix(kind, "-full"):
 		return "value != 'zz'"
+	case strings.HasSuffix(kind, "-filtered"):
+		return "key ^= 'k' & value != 'drop'"
 	}
 	return "key ^= 'k'"
 }
